@@ -179,13 +179,15 @@ let parse_wop (tok : string) : wop =
   | ["A"; i] -> WActive (z_of_string i)
   | ["C"; a; b] -> WCopy (z_of_string a, z_of_string b)
   | ["T"; n] -> WTouch (bytes_of_hex n)
+  | ["DN"; nm; sc] -> WSetName (bytes_of_hex nm, bytes_of_hex sc, [])
   | _ -> failwith ("bad wop " ^ tok)
 
 let () =
   reg "c16.run" (fun a ->
       let wb = wrun (List.map parse_wop a) init_wb in
       let sh = List.map (fun s -> hex_of_bytes s.w_name ^ ":" ^ string_of_z s.w_id ^ ":" ^ (if s.w_state = Z0 then "v" else "h") ^ ":" ^ string_of_z s.w_content) wb.sheets in
-      "active=" ^ string_of_z (active_index wb) ^ " " ^ String.concat " " sh ^ " consistent=" ^ str_bool (consistent wb))
+      let nms = List.sort compare (List.map (fun d -> hex_of_bytes d.d_name ^ "@" ^ (match scope_name wb d with Some n -> hex_of_bytes n | None -> "-")) wb.names) in
+      "active=" ^ string_of_z (active_index wb) ^ " " ^ String.concat " " sh ^ " consistent=" ^ str_bool (consistent wb) ^ " names=" ^ String.concat "," nms)
 
 let parse_eop (tok : string) : eop =
   match String.split_on_char ',' tok with
